@@ -67,13 +67,30 @@ def _is_net_store(n):
     return False
 
 
+def _table_name(fi, e, depth=0):
+    """the table a create function writes: a string, a local name bound once to one, or <Component>.table_name()"""
+    if const_str(e) is not None:
+        return const_str(e)
+    if isinstance(e, ast.Name) and depth < 3:
+        asg = assignments(fi.node, e.id)
+        if len(asg) == 1 and asg[0][2] is None:
+            return _table_name(fi, asg[0][1], depth + 1)
+    ix = getattr(fi, "_index", None)
+    if isinstance(e, ast.Call) and isinstance(e.func, ast.Attribute) and e.func.attr == "table_name" and not e.args \
+            and isinstance(e.func.value, ast.Name) and ix is not None:
+        r = ix.resolve_in(fi, e.func.value.id)
+        if r and r[0] == "class":
+            return ix.method_const(r[1], "table_name")
+    return None
+
+
 def written_columns(fi):
     """{column: value expr} of the row writer call of a create function, and the table name"""
     cs = [c for c in calls(fi.node) if callee_name(c) in ROW_WRITERS]
     if len(cs) != 1:
         raise AnalysisError("%s has %d row writer calls" % (fi.name, len(cs)))
     c = cs[0]
-    table = const_str(c.args[1]) if len(c.args) > 1 else None
+    table = _table_name(fi, c.args[1]) if len(c.args) > 1 else None
     cols = {}
     for k in c.keywords:
         if k.arg is not None:
